@@ -9,7 +9,7 @@ use std::{
     cell::RefCell,
     collections::BTreeSet,
     fs,
-    io::{self, BufWriter},
+    io::{self, BufWriter, Write},
     path::Path,
     sync::Arc,
     time,
@@ -623,6 +623,10 @@ impl Writer {
                 // switch to new merge data file if we exceed the max file size
                 merge_pos += nbytes;
                 if merge_pos > self.ctx.conf.max_file_size {
+                    // the merged files are removed later, their copies must be durable by then
+                    merge_datafile_writer.flush()?;
+                    merge_datafile_writer.get_ref().sync_all()?;
+                    merge_hintfile_writer.sync()?;
                     *merge_fileid += 1;
                     merge_pos = 0;
                     merge_datafile_writer =
@@ -636,6 +640,10 @@ impl Writer {
             }
             #[cfg(feature = "verif")]
             drop(_v);
+            // the merged files are removed below, their copies must be durable by then
+            merge_datafile_writer.flush()?;
+            merge_datafile_writer.get_ref().sync_all()?;
+            merge_hintfile_writer.sync()?;
         }
 
         // Switch to a new active file above the merge files before touching the merged files,
